@@ -110,6 +110,27 @@ Section C10.
     exact (scc_correct teqb teqb_spec ord g Hord (succ_rows_closed teqb teqb_spec g Hok) cs).
   Qed.
 
+  (* the three component functions RETURN (no unwrap fails, the model's fuel is never
+     exhausted) on every graph state of the right kind passing the executable coherence tests *)
+  Theorem C10_scc_total : forall (ord : list T -> list T) (g : gstate),
+    (forall l x, In x (ord l) <-> In x l) ->
+    wstep_ok_b teqb g = true -> directed (sp g) = true ->
+    exists cs, strongly_connected_components teqb ord g = Ok cs.
+  Proof.
+    intros ord g Hord Hok.
+    exact (scc_total teqb teqb_spec ord g Hord (succ_rows_closed teqb teqb_spec g Hok)).
+  Qed.
+
+  Theorem C10_weak_total : forall (g : gstate),
+    directed (sp g) = true -> wstep_ok_b teqb g = true ->
+    exists cs, weakly_connected_components teqb g = Ok cs.
+  Proof. exact (weakly_connected_components_total teqb teqb_spec). Qed.
+
+  Theorem C10_connected_total : forall (g : gstate),
+    directed (sp g) = false -> step_total_b teqb g = true ->
+    exists cs, connected_components teqb g = Ok cs.
+  Proof. exact (connected_components_total teqb teqb_spec). Qed.
+
   Theorem C10_node_component : forall (g : gstate) x s,
     node_connected_component teqb g x = Ok s ->
     directed (sp g) = false /\ NoDup s /\ (forall y, In y s <-> reach (step teqb g) x y).
